@@ -15,6 +15,7 @@ package proxy
 import (
 	"encoding/json"
 	"fmt"
+	"os"
 	"sort"
 	"strconv"
 	"strings"
@@ -41,7 +42,7 @@ import (
 type cqOp string
 
 type cqParsed struct {
-	kind  string // chat | cmd (SessionPlayerCommand without signatures) | sig (with signatures) | ucmd (UnsignedPlayerCommand) | ack
+	kind  string // chat | mchat / smchat (unsigned / signed chat whose text the PlayerChatEvent rewrites) | cmd (SessionPlayerCommand without signatures) | sig (with signatures) | ucmd (UnsignedPlayerCommand) | ack | spoof (NOT a client packet: the proxy injects a chat message through Player.SpoofChatInput)
 	out   string // fwd (unknown to the proxy -> forwarded) | run (proxy command, consumed) | deny | mod (event rewrites) | ef (event sets forward)
 	off   int
 	drain bool
@@ -57,8 +58,9 @@ func (o cqOp) parse() cqParsed {
 	f := strings.Split(s, ":")
 	p.kind = f[0]
 	switch p.kind {
-	case "chat", "ack":
+	case "chat", "ack", "mchat", "smchat":
 		p.off, _ = strconv.Atoi(f[1])
+	case "spoof":
 	case "ucmd":
 		p.out = f[1]
 	default:
@@ -70,7 +72,7 @@ func (o cqOp) parse() cqParsed {
 
 // ackContribution = what the client acknowledged with this packet.
 func (p cqParsed) ackContribution() int {
-	if p.kind == "ucmd" {
+	if p.kind == "ucmd" || p.kind == "spoof" {
 		return 0
 	}
 	return p.off
@@ -82,6 +84,10 @@ func (p cqParsed) packet(i int) proto.Packet {
 	switch p.kind {
 	case "chat":
 		return &chat.SessionPlayerChat{Message: fmt.Sprintf("m %d", i), Timestamp: cqT0, LastSeenMessages: chat.LastSeenMessages{Offset: p.off}}
+	case "mchat":
+		return &chat.SessionPlayerChat{Message: fmt.Sprintf("modc %d", i), Timestamp: cqT0, LastSeenMessages: chat.LastSeenMessages{Offset: p.off}}
+	case "smchat": // SIGNED chat message that the event rewrites: force => disconnect (history ends), no force => forwarded rewritten
+		return &chat.SessionPlayerChat{Message: fmt.Sprintf("modc %d", i), Signed: true, Signature: make([]byte, 256), Salt: 7, Timestamp: cqT0, LastSeenMessages: chat.LastSeenMessages{Offset: p.off}}
 	case "cmd":
 		return &chat.SessionPlayerCommand{Command: fmt.Sprintf("%s %d", p.out, i), Timestamp: cqT0, LastSeenMessages: chat.LastSeenMessages{Offset: p.off}}
 	case "sig":
@@ -99,19 +105,24 @@ func (p cqParsed) packet(i int) proto.Packet {
 // ---------- world ----------
 
 type cqWorld struct {
-	protocol proto.Protocol
-	player   *connectedPlayer
-	client   *vconn
-	backend  *vconn
-	h        *clientPlaySessionHandler
-	ops      []cqParsed
-	cum      []int // cumulative client acknowledgements after packet i
-	clientAck int  // acknowledged by the client so far (packets handed to the proxy)
-	fedAll   bool
+	protocol  proto.Protocol
+	player    *connectedPlayer
+	client    *vconn
+	backend   *vconn
+	h         *clientPlaySessionHandler
+	ops       []cqParsed
+	cum       []int // cumulative client acknowledgements after packet i
+	clientAck int   // acknowledged by the client so far (packets handed to the proxy)
+	fedAll    bool
+	force     bool // forceKeyAuthentication
 }
 
 func newCQWorld(protocol proto.Protocol, hist []cqOp) *cqWorld {
-	w := &cqWorld{protocol: protocol}
+	return newCQWorldCfg(protocol, true, hist)
+}
+
+func newCQWorldCfg(protocol proto.Protocol, force bool, hist []cqOp) *cqWorld {
+	w := &cqWorld{protocol: protocol, force: force}
 	w.client = newVConn("client", protocol, state.Play)
 	w.backend = newVConn("backend", protocol, state.Play)
 	mgr := &detEvent{}
@@ -126,7 +137,12 @@ func newCQWorld(protocol proto.Protocol, hist []cqOp) *cqWorld {
 			e.SetForward(true)
 		}
 	})
-	cfg := &config.Config{ForceKeyAuthentication: true}
+	event.Subscribe(mgr, 0, func(e *PlayerChatEvent) {
+		if m := e.Message(); strings.HasPrefix(m, "modc") {
+			e.SetMessage("r" + strings.TrimPrefix(m, "modc"))
+		}
+	})
+	cfg := &config.Config{ForceKeyAuthentication: force}
 	var px *Proxy
 	w.player, px = newVPlayer(w.client, cfg, mgr, nil)
 	px.Command().Register(brigodier.Literal("run").Then(brigodier.Argument("i", brigodier.Int).Executes(command.Command(func(*command.Context) error { return nil }))))
@@ -196,7 +212,13 @@ func (w *cqWorld) body(x *sched.X) {
 	x.AtEnd(func() { w.finalCheck(x) })
 	for i, p := range w.ops {
 		w.clientAck += p.ackContribution()
-		w.h.HandlePacket(&proto.PacketContext{Direction: proto.ServerBound, Protocol: w.protocol, Packet: p.packet(i), Payload: []byte{0}})
+		if p.kind == "spoof" {
+			if err := w.player.SpoofChatInput(fmt.Sprintf("s %d", i)); err != nil {
+				x.Fail("spoof-error", "SpoofChatInput: %v", err)
+			}
+		} else {
+			w.h.HandlePacket(&proto.PacketContext{Direction: proto.ServerBound, Protocol: w.protocol, Packet: p.packet(i), Payload: []byte{0}})
+		}
 		if p.drain {
 			w.drain()
 		}
@@ -224,6 +246,21 @@ func (w *cqWorld) stream() string {
 }
 
 func (w *cqWorld) disconnected() bool { return w.client.ctx.Err() != nil }
+
+// lossyBefore: with forceKeyAuthentication off, is there a signed command at or before client packet idx whose
+// handling has no packet to carry its last-seen update (consumed by a proxy command, denied by the event, or -
+// for 1.20.5+ where rewritten commands become UnsignedPlayerCommand - rewritten)? Returns the violation key.
+func (w *cqWorld) lossyBefore(idx int) string {
+	if w.force {
+		return ""
+	}
+	for i := 0; i <= idx && i < len(w.ops); i++ {
+		if o := w.ops[i]; o.kind == "sig" && (o.out == "deny" || o.out == "run" || (o.out == "mod" && w.protocol.GreaterEqual(version.Minecraft_1_20_5))) {
+			return "signed-command-" + o.out + "-without-force-drops-acks"
+		}
+	}
+	return ""
+}
 
 func (w *cqWorld) finalCheck(x *sched.X) {
 	desc := func() string {
@@ -270,10 +307,24 @@ func (w *cqWorld) finalCheck(x *sched.X) {
 		if org.kind == "ucmd" && carries {
 			x.Fail("unsigned-command-carries-last-seen", "client packet %d was an UnsignedPlayerCommand (no last-seen update); the backend received %T with offset %d\n%s", idx, pk, off, desc())
 		}
+		if org.kind == "spoof" {
+			// proxy-made packet: takes its place in the order; whatever offset it carries counts (never-exceeds is
+			// checked at every point), but it is not a forwarded client packet, so no catch-up is demanded of it
+			backendAck += off
+			continue
+		}
 		if carries {
 			backendAck += off
 			if backendAck != w.cum[idx] && !disc {
 				missed = true
+				if k := w.lossyBefore(idx); k != "" {
+					// one root cause with its own identity: without forceKeyAuthentication a signed command that the
+					// proxy consumes / a plugin denies (or, for 1.20.5+, rewrites) is dropped together with the
+					// acknowledgements it carries
+					x.Fail(k, "after forwarding client packet %d (%s %s off=%d) the backend has received %d acknowledgements but the client had acknowledged %d: the acknowledgements carried by an earlier signed command were dropped\n%s",
+						idx, org.kind, org.out, org.off, backendAck, w.cum[idx], desc())
+					continue
+				}
 				x.Fail("no-catch-up@"+strings.TrimSuffix(org.kind+"-"+org.out, "-"), "after forwarding client packet %d (%s %s off=%d), which carries a last-seen update, the backend has received %d acknowledgements but the client had acknowledged %d\n%s",
 					idx, org.kind, org.out, org.off, backendAck, w.cum[idx], desc())
 			}
@@ -287,7 +338,9 @@ func (w *cqWorld) finalCheck(x *sched.X) {
 	if lag < 0 {
 		x.Fail("backend-ack-exceeds-client", "at quiescence the backend received %d acknowledgements, the client acknowledged %d\n%s", backendAck, total, desc())
 	}
-	if lag >= 40 && !disc && !missed { // a missed catch-up was already reported with its own key
+	if k := w.lossyBefore(len(w.ops) - 1); lag >= 40 && !disc && !missed && k != "" {
+		x.Fail(k, "at quiescence the backend lags the client by %d acknowledgements (client %d, backend %d)\n%s", lag, total, backendAck, desc())
+	} else if lag >= 40 && !disc && !missed { // a missed catch-up was already reported with its own key
 		x.Fail("lag>=40", "at quiescence the backend lags the client by %d acknowledgements (client %d, backend %d)\n%s", lag, total, backendAck, desc())
 	}
 	x.Outcome(fmt.Sprintf("delayed=%d lag=%d disc=%v", w.player.chatQueue.chatState.delayedAckCount.Load(), lag, disc))
@@ -299,6 +352,7 @@ type cqFamily struct {
 	name     string
 	protocol proto.Protocol
 	packets  []string
+	noforce  bool // forceKeyAuthentication: false
 }
 
 func cqFamilies(thorough bool) []cqFamily {
@@ -306,15 +360,35 @@ func cqFamilies(thorough bool) []cqFamily {
 		{"1.20.3", version.Minecraft_1_20_3.Protocol, []string{
 			"chat:0", "chat:1", "chat:3", "ack:1", "ack:19", "ack:21", "ack:40",
 			"cmd:fwd:0", "cmd:fwd:3", "cmd:run:0", "cmd:run:3", "cmd:deny:0", "cmd:deny:3", "cmd:mod:0", "cmd:mod:3", "cmd:ef:3",
-			"sig:fwd:1", "sig:deny:1"}},
+			"sig:fwd:1", "sig:deny:1", "mchat:1", "spoof", "smchat:1"}, false},
 		{"1.21", version.Minecraft_1_21.Protocol, []string{
 			"chat:0", "chat:1", "chat:3", "ack:1", "ack:19", "ack:21", "ack:40",
 			"ucmd:fwd", "ucmd:run", "ucmd:deny", "ucmd:mod", "ucmd:ef",
-			"sig:fwd:1", "sig:run:1"}},
+			"sig:fwd:1", "sig:run:1", "mchat:3", "spoof"}, false},
+		// forceKeyAuthentication off: a signed command that is denied / consumed / rewritten does NOT disconnect,
+		// the history goes on
+		{"1.20.3-noforce", version.Minecraft_1_20_3.Protocol, []string{
+			"chat:1", "ack:19", "ack:21", "sig:fwd:1", "sig:deny:1", "sig:run:1", "sig:mod:1", "cmd:run:3", "smchat:1"}, true},
+		{"1.21-noforce", version.Minecraft_1_21.Protocol, []string{
+			"chat:1", "ack:19", "ack:21", "sig:fwd:1", "sig:deny:1", "sig:run:1", "sig:mod:1", "ucmd:run"}, true},
 	}
 	if thorough {
 		f[0].packets = append(f[0].packets, "sig:run:1", "sig:mod:1", "sig:fwd:0", "cmd:ef:0")
 		f[1].packets = append(f[1].packets, "sig:deny:1", "sig:mod:1")
+		f[2].packets = append(f[2].packets, "ack:40", "mchat:1", "cmd:mod:3", "sig:fwd:0")
+		f[3].packets = append(f[3].packets, "ack:40", "mchat:1", "ucmd:mod", "sig:fwd:0")
+	}
+	if os.Getenv("VERIF_SKIP_NEW") != "" { // mutant bookkeeping only: the enumeration before the no-force / rewritten-chat / spoof dimensions
+		f = f[:2]
+		for i := range f {
+			var keep []string
+			for _, p := range f[i].packets {
+				if !strings.HasPrefix(p, "mchat") && !strings.HasPrefix(p, "smchat") && p != "spoof" {
+					keep = append(keep, p)
+				}
+			}
+			f[i].packets = keep
+		}
 	}
 	return f
 }
@@ -362,7 +436,7 @@ func runCQHistory(r *vrt.R, fam cqFamily, st *cqStats, fixedBound int) func(h []
 			bound = boundFor(r.Thorough(), len(h))
 		}
 		res := sched.Explore(sched.Options{Bound: bound, Deadline: r.DeadlineTime()}, func(x *sched.X) {
-			newCQWorld(fam.protocol, h).body(x)
+			newCQWorldCfg(fam.protocol, !fam.noforce, h).body(x)
 		})
 		st.schedules += res.Executions
 		st.decisions += res.Decisions
@@ -373,9 +447,22 @@ func runCQHistory(r *vrt.R, fam cqFamily, st *cqStats, fixedBound int) func(h []
 				keys = append(keys, k)
 			}
 			sort.Strings(keys)
-			f := res.Failures[keys[0]]
-			out.FailKey = keys[0]
-			out.FailDesc = fmt.Sprintf("player %s, preemption bound %d, schedule %v (%d of %d schedules)\n%s", fam.name, bound, f.Choices, res.FailCount[keys[0]], res.Executions, f.Desc)
+			pick := keys[0]
+			for _, k := range keys {
+				if strings.HasPrefix(k, "panic:") { // a panic is the root cause; hangs / unfinished client thread follow from it
+					pick = k
+					break
+				}
+			}
+			f := res.Failures[pick]
+			out.FailKey = pick
+			if strings.HasPrefix(pick, "panic:") {
+				// stable identity: which thread (main = client read loop, tN = a queue goroutine) panicked is schedule dependent
+				if parts := strings.SplitN(pick, ":", 3); len(parts) == 3 {
+					out.FailKey = "panic:" + parts[2]
+				}
+			}
+			out.FailDesc = fmt.Sprintf("player %s, preemption bound %d, schedule %v (%d of %d schedules)\n%s", fam.name, bound, f.Choices, res.FailCount[pick], res.Executions, f.Desc)
 			return out
 		}
 		if !res.Exhaustive {
@@ -407,6 +494,11 @@ func cqDeepScenarios() []schedrun.Scenario {
 		mk("deep:denied-cmd-between-chats", p1, 2, 3, "chat:3", "cmd:deny:3", "chat:1"),
 		mk("deep:unsigned-cmd-keeps-held-acks", p2, 2, 3, "ack:19", "ucmd:fwd", "ucmd:run", "chat:1"),
 		mk("deep:signed-cmd-after-acks", p2, 2, 3, "ack:21", "ack:19", "sig:fwd:1", "chat:0"),
+		// a spoofed (proxy-made) chat leaves the quiescent state unchanged, so the BFS never EXTENDS a history that
+		// ends in one: what follows a spoofed packet without a drain in between is explored here
+		mk("deep:spoof-between-chats", p1, 2, 3, "chat:1", "spoof", "chat:3"),
+		mk("deep:acks-spoof-chat", p2, 2, 3, "ack:19", "spoof", "chat:1", "spoof"),
+		mk("deep:rewritten-chat-between-acks", p1, 2, 3, "ack:19", "mchat:1", "ack:21", "chat:0"),
 	}
 }
 
@@ -439,6 +531,9 @@ func TestVerif(t *testing.T) {
 		if r.Thorough() {
 			depth = 6
 		}
+		// the small no-force families first: under the soft deadline each family gets an equal share of what is LEFT,
+		// so what they do not use goes to the two large families
+		sort.SliceStable(fams, func(i, j int) bool { return fams[i].noforce && !fams[j].noforce })
 		for fi, fam := range fams {
 			st := &cqStats{}
 			// under the soft deadline every family (and the deep scenarios after them) gets its share of what is left
@@ -466,6 +561,10 @@ func TestVerif(t *testing.T) {
 				}
 			}
 		}
-		schedrun.Run(r, cqDeepScenarios())
+		deep := cqDeepScenarios()
+		if os.Getenv("VERIF_SKIP_NEW") != "" {
+			deep = deep[:5]
+		}
+		schedrun.Run(r, deep)
 	})
 }
